@@ -371,4 +371,4 @@ mod tests {
 
 #[cfg(kani)]
 #[path = "/verif/units/kani/core_trie_pos.rs"]
-mod verif_kani;
+pub(crate) mod verif_kani;
